@@ -28,6 +28,9 @@ class DefaultSettings(MagicProperties):
 
     def reset(self):
         """Resets all nested properties to their hard coded default values"""
+        # start from an unset property tree, so that properties without a hard coded
+        # default value are reset as well
+        self.display = None
         self.update(get_defaults_dict(), _match_properties=False)
         return self
 
